@@ -73,7 +73,7 @@ Section Args.
           end
         else if negb after && prefix "--init=" l then scan r after (fset "--init" (FStr (drop 7 l)) flags) pos
         else if negb after && prefix "-" l && Nat.ltb 1 (String.length l) then inl ("Unrecognized flag: " ++ a)
-        else scan r after flags (pos ++ [l])
+        else scan r after flags (pos ++ [a])
     end.
 
   Definition mode_of (flags : flagmap) : string :=
